@@ -11,9 +11,9 @@
                    `if _, ok := v[key].(driver.Valuer); ok { Eq } else if _, ok := v[key].(Valuer); ok { Eq }`), only then
                    `clause.IN{Column: key, Values: <every element>}`; `default: clause.Eq{key, v[key]}`
     * `colArm`   — `Where("name", v)`: always ONE `clause.Eq{Column: s, Value: args[0]}`
-    * `eqText` / `neqText` — what `Eq.Build` / `Neq.Build` write (type switch on the listed slice types → IN list;
+    * `cvEqText` / `cvNeqText` — what `Eq.Build` / `Neq.Build` write (type switch on the listed slice types → IN list;
                    `eqNil` → IS [NOT] NULL; otherwise ` = ` / ` <> ` followed by `AddVar(value)`)
-    * `addVarText` — `Statement.AddVar` on one value: gorm `Valuer` → its GormValue expression (one placeholder for the
+    * `cvAddVarText` — `Statement.AddVar` on one value: gorm `Valuer` → its GormValue expression (one placeholder for the
                    types the harness generates), `driver.Valuer` / `[]byte` → ONE bound value; otherwise by
                    `reflect.ValueOf(v).Kind()` (NOT indirected): slice/array of bytes → one value, empty → `(NULL)`, other
                    slice/array → `(?,…,?)`
@@ -67,7 +67,7 @@ def mapArm (g : MapSliceGuards) (v : GoVal) : CondShape :=
 def colArm (_ : GoVal) : CondShape := .eq
 
 /-- statement.go `AddVar` on one value -/
-def addVarText (v : GoVal) : String :=
+def cvAddVarText (v : GoVal) : String :=
   if v.gv then "?"                                   -- `case Valuer:` GormValue(…) of the generated types is `?`
   else if v.dv then "?"                              -- `case driver.Valuer:` one bound value
   else if v.kind.isList && v.direct then
@@ -77,14 +77,14 @@ def addVarText (v : GoVal) : String :=
   else "?"
 
 /-- clause/expression.go `Eq.Build` after the column -/
-def eqText (col : String) (v : GoVal) : String :=
+def cvEqText (col : String) (v : GoVal) : String :=
   col ++ (if v.eqListed then (if v.len = 0 then " IN (NULL)" else " IN (" ++ qmarks v.len ++ ")")
-          else if v.isNil then " IS NULL" else " = " ++ addVarText v)
+          else if v.isNil then " IS NULL" else " = " ++ cvAddVarText v)
 
 /-- clause/expression.go `Neq.Build` -/
-def neqText (col : String) (v : GoVal) : String :=
+def cvNeqText (col : String) (v : GoVal) : String :=
   col ++ (if v.eqListed then " NOT IN (" ++ qmarks v.len ++ ")"
-          else if v.isNil then " IS NOT NULL" else " <> " ++ addVarText v)
+          else if v.isNil then " IS NOT NULL" else " <> " ++ cvAddVarText v)
 
 /-- the shape `Eq.Build` gives the value of an `Eq` comparison, in the vocabulary of Model/Where.lean -/
 def GoVal.valShape (v : GoVal) : ValShape :=
@@ -98,7 +98,7 @@ def mapAtom (g : MapSliceGuards) (col : String) (id : Nat) (v : GoVal) : Atom :=
   | .inList n => { col := col, kind := .inK, val := .list n, id := id }
 
 /-- a value that reaches the database as ONE bound parameter -/
-def GoVal.oneVar (v : GoVal) : Bool := addVarText v == "?"
+def GoVal.oneVar (v : GoVal) : Bool := cvAddVarText v == "?"
 
 /-- what the Go type system guarantees about the flags: the exact slice types `Eq.Build` lists are unnamed (no methods),
     direct slices, and never `eqNil` -/
